@@ -26,7 +26,8 @@ C, S = 100, 200
 LABELS = ["call", "h_release", "c_sleep", "done", "src_closed", "src_lock", "push_lt", "push_lh", "push_w",
           "push_st", "src_notify", "src_trylock", "src_popunlock", "src_unlock", "pop_lh", "pop_lt", "pop_r",
           "pop_sh", "clone_add", "drop_sub", "drop_close", "drop_notify", "r_create", "r_ended", "r_lock",
-          "r_closed", "r_setended", "r_unlock", "r_await", "r_recheck", "empty", "stop_store", "stop_notify"]
+          "r_closed", "r_setended", "r_unlock", "r_await", "r_recheck", "empty", "stop_store", "stop_notify",
+          "rdrop_close", "rdrop_notify"]
 RESULTS = ["", "Ok", "WouldBlock", "Closed", "none", "ok", "eos"]
 OPS = {"s": "send", "t": "try", "m": "many", "c": "clone"}
 
@@ -37,8 +38,8 @@ LIVENESS = "CloseLeadsToEos Terminates"
 LIVENESS_EXT = "StopLeadsToEos"
 
 
-def K(cap, p1, p2="", p3="", own=False, nodrop=(), stop=False):
-    return dict(cap=cap, p1=p1, p2=p2, p3=p3, own=own, nodrop=tuple(nodrop), stop=stop)
+def K(cap, p1, p2="", p3="", own=False, nodrop=(), stop=False, chan=False, cmax=0):
+    return dict(cap=cap, p1=p1, p2=p2, p3=p3, own=own, nodrop=tuple(nodrop), stop=stop, chan=chan, cmax=cmax)
 
 
 # (label, constants, replay?) -- every configuration is model-checked; `replay` ones are also executed edge by edge
@@ -49,15 +50,20 @@ CFG = {
         K(2, "st", stop=True),                      # stop() at any moment
         K(1, "s", "s"),                             # two threads on one shared handle
         K(1, "s", "t", own=True),                   # two clones; try_send sees WouldBlock
-        K(1, "sc", "s", own=True),                  # Clone/Drop accounting in the middle of a program
+        K(1, "cs", "s", own=True),                  # Clone/Drop accounting in the middle of a program
         K(3, "mt"),                                 # capacity that is not a power of two; send_many then try_send
         K(1, "m", nodrop=(1,), stop=True),          # send_many; a handle kept alive: only stop() ends the stream
-        K(1, "s", "s", nodrop=(1,), stop=True),     # two threads, one keeps the shared handle, stop() at any moment
+        # pipeline.rs: SampleQueueSender / ChannelMediaSource (same ring, own recv loop, Receiver::drop closes)
+        K(1, "ss", chan=True),
+        K(1, "s", "t", chan=True),                  # two threads on one Sync sender
+        K(2, "st", chan=True, cmax=1),              # the receiver is dropped while the sender is still sending
     ],
     "thorough": [
         K(1, ""), K(1, "ss"), K(2, "st", stop=True), K(1, "s", "s"), K(1, "s", "t", own=True),
         K(1, "sc", "s", own=True), K(3, "mt"), K(1, "m", nodrop=(1,), stop=True), K(1, "s", "s", nodrop=(1,), stop=True),
         K(2, "m", "s", nodrop=(1,), stop=True),
+        K(1, "ss", chan=True), K(1, "s", "t", chan=True), K(2, "st", chan=True, cmax=1),
+        K(2, "ss", "st", chan=True), K(1, "sst", "s", chan=True, cmax=2),
         K(2, "ss", "ss"),                           # the design-phase calibration configuration
         K(1, "m", "t", stop=True),
         K(3, "sss", "s", own=True),
@@ -76,6 +82,8 @@ PROBES = [
     ("NotifiedAfterCheck", K(1, ""), "NoLostWakeup", "lostwakeup"),
     ("ClosedCheckAfterPop", K(1, "s"), "DrainThenEos", "earlyeos"),
     ("NotifiedAfterCheck", K(1, "", nodrop=(1,), stop=True), "NoLostWakeupStop", "lostwakeup_stop"),
+    ("UnserialisedProducers", K(2, "s", "s", chan=True), "NoSlotRace", "chan_race"),
+    ("ClosedCheckAfterPop", K(1, "s", chan=True), "DrainThenEos", "chan_earlyeos"),
 ]
 
 
@@ -85,6 +93,8 @@ def label_of(k):
         s += "_keep" + "".join(map(str, k["nodrop"]))
     if k["stop"]:
         s += "_stop"
+    if k.get("chan"):
+        s = "chan_" + s + (f"_cmax{k['cmax']}" if k["cmax"] else "")
     return s
 
 
@@ -99,7 +109,7 @@ def harness_cfg(k):
     if k["p3"]:
         progs["3"] = [OPS[c] for c in k["p3"]]
     return {"type": "cfg", "cap": k["cap"], "progs": progs, "shared": not k["own"], "nodrop": list(k["nodrop"]),
-            "stop": k["stop"], "label": label_of(k)}
+            "stop": k["stop"], "label": label_of(k), "variant": "chan" if k.get("chan") else "track", "cmax": k.get("cmax", 0)}
 
 
 def write_cfg(path, k, emit=False, deviations=(), invariants=SAFETY, properties=""):
@@ -116,6 +126,8 @@ CONSTANTS
   Shared = {"FALSE" if k['own'] else "TRUE"}
   NoDrop = {nd}
   UseStop = {"TRUE" if k['stop'] else "FALSE"}
+  Variant = "{'chan' if k.get('chan') else 'track'}"
+  CMax = {k.get('cmax', 0)}
   Deviations = {dev}
 VIEW view
 {"INVARIANTS " + invariants if invariants else ""}
@@ -134,7 +146,7 @@ def proc_of(state, p):
     return None
 
 
-def expect(f, t, p, cap):
+def expect(f, t, p, cap, k=None):
     """What the real objects must show after thread p stepped from state f to state t."""
     if p == 0:
         return {"lbl": "teardown", "live": len(t[14]) - len(t[15])}
@@ -144,13 +156,16 @@ def expect(f, t, p, cap):
     ret, got = "", 0
     if p == C:
         fl, tl = LABELS[fc[1] - 1], LABELS[tc[1] - 1]
-        if t[18] != f[18] or len(t[17]) != len(f[17]) or (fl != "call" and tl in ("call", "done")):
+        if t[18] != f[18] or len(t[17]) != len(f[17]) or \
+                (fl not in ("call", "rdrop_close", "rdrop_notify") and tl in ("call", "done")):
             ret = RESULTS[t[18] - 1]
             if len(t[17]) != len(f[17]):
                 got = t[17][-1]
     elif p != S:
         if tp[10] != fp[10]:
             ret = RESULTS[tp[14] - 1]
+            if k and k.get("chan") and ret in ("WouldBlock", "Closed") and k["p%d" % p][fp[10] - 1] == "t":
+                ret = "Rejected"            # SampleQueueSender::try_send hands the sample back for both reasons
     win = -1
     if lbl in ("push_w", "push_st"):
         win = tp[2] % cap
@@ -185,7 +200,7 @@ def build_plan(edges_path, plan_path, k, sim_path=None):
         src.append(u)
         dst.append(v)
         who.append(p)
-        xs.append(expect(json.loads(fs), json.loads(ts), p, cap))
+        xs.append(expect(json.loads(fs), json.loads(ts), p, cap, k))
     n, m = len(ids), len(src)
     out = [[] for _ in range(n)]
     inn = [[] for _ in range(n)]
@@ -228,36 +243,50 @@ def build_plan(edges_path, plan_path, k, sim_path=None):
     if any(d < 0 for d in dist):
         raise vlib.ToolError("a state of the edge graph cannot reach a terminal state")
     covered = bytearray(m)
-    unc = [len(out[u]) for u in range(n)]          # uncovered out-edges per node
     paths = []
-
-    def mark(e):
-        if not covered[e]:
-            covered[e] = 1
-            unc[src[e]] -= 1
-
-    for u in order:
-        while unc[u] > 0:
-            pre = []
-            v = u
-            while par[v] >= 0:
-                pre.append(par[v])
-                v = src[par[v]]
-            pre.reverse()
-            path = pre
-            v = u
+    # topological order (the graph of these finite programs is acyclic); gain[v] = the largest number of uncovered
+    # edges on a path from v to the end. Each schedule follows the maximal-gain path; gains are refreshed every few
+    # schedules (greedy longest-uncovered-path cover: ~4x fewer steps than prefix + one edge + completion).
+    indeg = [len(inn[u]) for u in range(n)]
+    topo = [u for u in range(n) if indeg[u] == 0]
+    for u in topo:
+        for e in out[u]:
+            v = dst[e]
+            indeg[v] -= 1
+            if indeg[v] == 0:
+                topo.append(v)
+    if len(topo) != n:
+        raise vlib.ToolError("the edge graph has a cycle")
+    rtopo = topo[::-1]
+    gain = [0] * n
+    left = m
+    while left > 0:
+        for u in rtopo:
+            g = 0
+            for e in out[u]:
+                x = gain[dst[e]] + (0 if covered[e] else 1)
+                if x > g:
+                    g = x
+            gain[u] = g
+        batch = 0
+        while left > 0 and batch < max(12, m // 400):
+            path, new, v = [], 0, root
             while out[v]:
-                if unc[v] > 0:
-                    e = next(e for e in out[v] if not covered[e])
-                else:
-                    # no new edge here: prefer a successor that still has uncovered edges, else head for the end
-                    cand = [e for e in out[v] if unc[dst[e]] > 0]
-                    e = cand[0] if cand else nxt[v]
-                path.append(e)
-                v = dst[e]
-            for e in path:
-                mark(e)
+                best, bg = None, -1
+                for e in out[v]:
+                    x = gain[dst[e]] + (0 if covered[e] else 1000000)      # an uncovered edge here and now comes first
+                    if x > bg:
+                        best, bg = e, x
+                path.append(best)
+                if not covered[best]:
+                    covered[best] = 1
+                    new += 1
+                v = dst[best]
+            if new == 0:
+                break                                                     # stale gains: refresh
+            left -= new
             paths.append(path)
+            batch += 1
     assert all(covered)
     ncover = len(paths)
     if sim_path:
@@ -391,6 +420,7 @@ def probe_witness(ck, dev, k, inv, name):
 
 def classify_witness(name, w):
     """Did the real code go along with the counterexample of the deviation-on model? -> (reproduced, rule, what)"""
+    name = name.replace("chan_", "")
     if name == "race":
         hit = [r for r in w.get("race", []) if r["rule"] == "NoSlotRace"]
         return bool(hit), "NoSlotRace", f"two threads own slot {hit[0]['slot']} at once: {hit[0]}" if hit else ""
@@ -426,7 +456,8 @@ def model_and_replay(ck, k, tier, shards):
 def liveness(k, tier):
     lab = label_of(k)
     cfg = os.path.join(vlib.SPEC, f"MC_Ring_live_{lab}.{os.getpid()}.gen.cfg")
-    write_cfg(cfg, k, emit=False, invariants="", properties=LIVENESS + " " + LIVENESS_EXT)
+    props = "Terminates" if k.get("cmax") else LIVENESS + ("" if k.get("chan") else " " + LIVENESS_EXT)
+    write_cfg(cfg, k, emit=False, invariants="", properties=props)
     res = vlib.tlc("MC_Ring", os.path.basename(cfg), workers=2, timeout=3000 if tier == "thorough" else 900,
                    tag=f"MC_Ring_live_{lab}", heap="4g")
     os.remove(cfg)
@@ -619,10 +650,13 @@ def run(tier):
         if bad:
             rec = {"rule": rule, "kind": "witness", "deviation": dev, "what": what, "schedule": sched, "observed": w,
                    "cfg": w.get("cfg")}
+            if name.startswith("chan_"):
+                rec["variant"] = "chan"
             if rule == "NoLostWakeupStop":
                 ck.drift.append({"rule": "EXT", "what": what, "deviation": dev})
             else:
-                ck.divergence({"sub": "ring", "rule": rule, "kind": "witness", "deviation": dev}, rec)
+                ck.divergence({"sub": "ring", "rule": rule, "kind": "witness", "deviation": dev,
+                               "variant": "chan" if name.startswith("chan_") else "track"}, rec)
     os.remove(plan)
     ck.cov["stress"] = st_out
     ck.cov["traces_validated_against_impl"] = tot["paths"] + len(probes) + st_out["scenarios"]
